@@ -174,8 +174,26 @@ def fibHashText (f : FibHash) : String :=
     s!"{k.toText}|{md}|{names}")
   s!"m={f.m} real={joinOr "," real} virt={joinOr "," virt}"
 
+def sortNats (l : List Nat) : List Nat := l.mergeSort (fun a b => decide (a ≤ b))
+
 def ribText (r : Rib) : String :=
-  s!"rib={joinOr "," (sortStrs (([] :: r.nodes).map fun n => s!"{n.toText}|{(aget [] r.routes n).length}"))}"
+  let withRoutes := ([] :: r.nodes).filter (fun n => !(aget [] r.routes n).isEmpty)
+  let routes := withRoutes.map fun n => s!"{n.toText}|{"+".intercalate ((sortNats ((aget [] r.routes n).map (·.1))).map toString)}"
+  s!"rib={joinOr "," (sortStrs (([] :: r.nodes).map fun n => s!"{n.toText}|{(aget [] r.routes n).length}"))} routes={joinOr "," (sortStrs routes)}"
+
+/-- parse "name|f+f,name|f" -/
+def parseFaces (s : String) : List (Name × List Nat) :=
+  (listOf "," s).filterMap fun t => match t.splitOn "|" with
+    | [a, b] => (Name.ofText a).map fun n => (n, (listOf "+" b).filterMap String.toNat?)
+    | _ => none
+
+def specFibJustified (ribPart fibPart : String) : List SpecFail :=
+  let routes := parseFaces (kv (kvs ribPart) "routes")
+  let fibnh := parseFaces (kv (kvs fibPart) "fibnh")
+  if fibJustified fibnh routes then [] else
+    let badOnes := fibnh.filter (fun p => !(fibJustified [p] routes))
+    [fail "fib-beyond-rib" (if badOnes.any (fun p => p.1.isEmpty) then "root" else "prefix")
+      s!"the FIB holds next hops no live route requires: {joinOr "," (badOnes.map fun p => s!"{p.1.toText}|{"+".intercalate (p.2.map toString)}")} with routes {kv (kvs ribPart) "routes"}"]
 
 /-- parse "a|b|c,a|b|c" -/
 def parseTriples (s : String) : List (String × String × String) :=
@@ -241,33 +259,42 @@ def stepC08 (s : DSt) (op : String) (got : String) : StepResult DSt :=
   | ["new", "fibhash", m] => { st := { mode := .fibhash, fh := { m := m.toNat?.getD 1 } }, expected := some "ok" }
   | ["new", "rib", kind, m] =>
     { st := { mode := .rib, fh := { m := m.toNat?.getD 1 }, ft := if kind == "tree" then {} else { nodes := [[]] } }, expected := some "ok" }
-  | ["I", f, n, c, mb, nonce, life] =>
+  | ["I", f, n, c, mb, nonce, life, hl, nhf] =>
     if s.mode != .pit then bad s else
-    match f.toNat?, Name.ofText n, nonce.toNat? with
-    | some f, some n, some nonce =>
+    match f.toNat?, Name.ofText n with
+    | some f, some n =>
       let life := msNs (if life == "-" then 4000 else life.toNat?.getD 4000)
-      let i : Interest := ⟨f, n, c == "1", mb == "1", nonce, life⟩
-      let r := procInterest (ordFor got) s.m i
+      let nonce := nonce.toNat?
+      let hop := hl.toNat?
+      let nhfv := nhf.toNat?
+      let r := procInterestPkt (ordFor got) s.m f n (c == "1") (mb == "1") nonce life hop nhfv
       let hit := r.2.any (fun x => match x with | .data _ _ => true | _ => false)
       let isNew := r.1.tokNext > s.m.tokNext
-      let cov := (if C08.dnlHas s.m.dnl n nonce then ["I-dnl-drop"] else
+      let early := !faceExists f || hop == some 0 || isLocalhost n || nonce.isNone
+      let cov := (if !faceExists f then ["I-bad-face"] else if hop == some 0 then ["I-hop0"] else
+                  if isLocalhost n then ["I-localhost"] else if nonce.isNone then ["I-no-nonce"] else
+                  if C08.dnlHas s.m.dnl n (nonce.getD 0) then ["I-dnl-drop"] else
                   if hit then ["I-cs-hit"] else
-                  if r.2.isEmpty then (if isNew then ["I-new-nosend"] else ["I-agg-or-drop"]) else
-                  if isNew then ["I-new-fwd"] else ["I-retx-fwd"])
+                  match nhfv with
+                  | some x => if !faceExists x then ["I-nhf-noface"] else if r.2.isEmpty then ["I-nhf-nosend"] else ["I-nhf-send"]
+                  | none =>
+                    if r.2.isEmpty then (if isNew then ["I-new-nosend"] else ["I-agg-or-drop"]) else
+                    if isNew then ["I-new-fwd"] else ["I-retx-fwd"]) ++
+                 (if hop == some 1 && !early then ["I-hop1"] else [])
       -- spec side: the entry (of the implementation's dump) this Interest belongs to
       let hz' := match parseDump got with
-        | some d => match d.pit.find? (fun e => decide (e.name = n) && e.cbp == i.cbp && e.mbf == i.mbf) with
+        | some d => match d.pit.find? (fun e => decide (e.name = n) && e.cbp == (c == "1") && e.mbf == (mb == "1")) with
           | some e => (e.tok, max (hzOf s.hz e.tok) (d.now + life)) :: s.hz.filter (·.1 != e.tok)
           | none => s.hz
         | none => s.hz
       pitStep s r got false cov { s with horizon := max s.horizon (s.now + life), hz := hz', interesting := s.interesting || hit }
-    | _, _, _ => bad s
+    | _, _ => bad s
   | ["D", f, n, fresh, tok, w] =>
     if s.mode != .pit then bad s else
     match f.toNat?, Name.ofText n, bytesOfHex w with
     | some f, some n, some w =>
       let tk : Option (Option (Option Nat)) :=
-        if tok == "-" then some none else if tok == "X" then some (some none)
+        if tok == "-" || tok == "S" then some none else if tok == "X" then some (some none)
         else if tok.startsWith "T" then (tok.drop 1).toString.toNat?.map (fun k => some (some k)) else none
       match tk with
       | none => bad s
@@ -275,14 +302,14 @@ def stepC08 (s : DSt) (op : String) (got : String) : StepResult DSt :=
         match tk with
         | some (some k) => if k ≥ s.m.tokNext then { st := s, expected := some "skip" } else
           let d : DataPkt := ⟨f, n, msNs (if fresh == "-" then 0 else fresh.toNat?.getD 0), tk, w⟩
-          let r := procData s.m d
+          let r := procDataPkt s.m d
           pitStep s r got false [if r.2.isEmpty then "D-tok-nomatch" else "D-tok-match"] { s with horizon := max s.horizon s.now }
         | _ =>
           let d : DataPkt := ⟨f, n, msNs (if fresh == "-" then 0 else fresh.toNat?.getD 0), tk, w⟩
-          let r := procData s.m d
+          let r := procDataPkt s.m d
           let nm := (prefixMatch s.m.pit n).length
           let ev := r.1.cs.cs.length < s.m.cs.cs.length + 1 && !(s.m.cs.cs.has n)
-          pitStep s r got false ([if tk.isSome then "D-foreign-token" else if nm == 0 then "D-unsolicited" else if nm == 1 then "D-match-one" else "D-match-many"] ++ (if ev then ["D-evict"] else []))
+          pitStep s r got false ([if !faceExists f then "D-bad-face" else if isLocalhost n then "D-localhost" else if tok == "S" then "D-short-token" else if tk.isSome then "D-foreign-token" else if nm == 0 then "D-unsolicited" else if nm == 1 then "D-match-one" else "D-match-many"] ++ (if ev then ["D-evict"] else []))
             { s with horizon := max s.horizon s.now, interesting := s.interesting || ev }
     | _, _, _ => bad s
   | [a, ms] =>
@@ -333,7 +360,7 @@ def stepC08 (s : DSt) (op : String) (got : String) : StepResult DSt :=
         let ribPart := (got.splitOn " ;; ").headD ""
         let fibPart := " ;; ".intercalate ((got.splitOn " ;; ").drop 1)
         { st := { s with rb := r' }, expected := some (ribText r' ++ " ;; " ++ fibPart),
-          spec := crashSpec got "rib" ++ specRib ribPart ++ (if fibPart.startsWith "m=" then specFibHash fibPart else specFibTree fibPart),
+          spec := crashSpec got "rib" ++ specRib ribPart ++ specFibJustified ribPart fibPart ++ (if fibPart.startsWith "m=" then specFibHash fibPart else specFibTree fibPart),
           cov := ["rib-cleanup"] ++ (if r'.nodes.length < s.rb.nodes.length then ["rib-prune"] else []),
           nontrivial := r'.nodes.length < s.rb.nodes.length }
       | none => bad s
@@ -372,7 +399,7 @@ def stepC08 (s : DSt) (op : String) (got : String) : StepResult DSt :=
       let ribPart := (got.splitOn " ;; ").headD ""
       let fibPart := " ;; ".intercalate ((got.splitOn " ;; ").drop 1)
       { st := { s with rb := r' }, expected := some (ribText r' ++ " ;; " ++ fibPart),
-        spec := crashSpec got "rib" ++ specRib ribPart ++ (if fibPart.startsWith "m=" then specFibHash fibPart else specFibTree fibPart),
+        spec := crashSpec got "rib" ++ specRib ribPart ++ specFibJustified ribPart fibPart ++ (if fibPart.startsWith "m=" then specFibHash fibPart else specFibTree fibPart),
         cov := ["rib-add"] }
     | _, _, _ => bad s
   | ["rrem", n, f, o] =>
@@ -383,7 +410,7 @@ def stepC08 (s : DSt) (op : String) (got : String) : StepResult DSt :=
       let ribPart := (got.splitOn " ;; ").headD ""
       let fibPart := " ;; ".intercalate ((got.splitOn " ;; ").drop 1)
       { st := { s with rb := r' }, expected := some (ribText r' ++ " ;; " ++ fibPart),
-        spec := crashSpec got "rib" ++ specRib ribPart ++ (if fibPart.startsWith "m=" then specFibHash fibPart else specFibTree fibPart),
+        spec := crashSpec got "rib" ++ specRib ribPart ++ specFibJustified ribPart fibPart ++ (if fibPart.startsWith "m=" then specFibHash fibPart else specFibTree fibPart),
         cov := ["rib-remove"] ++ (if r'.nodes.length < s.rb.nodes.length then ["rib-prune"] else []),
         nontrivial := r'.nodes.length < s.rb.nodes.length }
     | _, _, _ => bad s
